@@ -164,6 +164,16 @@ def l2_check(run):
             rec = run.recs.get((a["name"], i))
             if rec is None or op[0] in ("nem", "barrier"):
                 continue
+            # model-free: whatever Duration an op hands back (a copy, a negation, a sum ...) must be
+            # consistent with itself - its components sum exactly to its timedelta value
+            o = rec["obs"]
+            if isinstance(o, list) and o and o[0] == "Duration" and len(o) >= 4:
+                n += 1
+                c, nat = o[1], o[3]
+                comp_us = ((c[0] * 365 + c[1] * 30 + c[2] * 7 + c[3]) * 86400 + c[4] * 3600 + c[5] * 60 + c[6]) * 10**6 + c[7]
+                nat_us = (nat[0] * 86400 + nat[1]) * 10**6 + nat[2]
+                if comp_us != nat_us:
+                    _chk(viols, run, rec, op, "self_consistency", {"components": c, "timedelta": nat, "components_us": comp_us, "timedelta_us": nat_us})
             tgt = op[1] if len(op) > 1 and isinstance(op[1], dict) and op[1].get("$") == "p" else None
             if tgt is None or tgt["i"] not in models:
                 continue
